@@ -1,16 +1,20 @@
 package main
 
 import (
+	"bufio"
 	"bytes"
 	"encoding/binary"
 	"flag"
 	"fmt"
 	"math/rand"
 	"path/filepath"
+	"sync/atomic"
 
+	mbinary "github.com/mandykoh/prism/meta/binary"
 	"github.com/mandykoh/prism/meta/icc"
 
 	"verif/harness/gen"
+	"verif/harness/obs"
 )
 
 func init() { commands["icchdr"] = icchdrCmd }
@@ -26,16 +30,58 @@ func ints(b []byte) []int {
 	return o
 }
 
+// present wraps a profile in one of the reader presentations a caller may use (the header's
+// fields may depend on none of them): a *bytes.Reader; bufio readers of the smallest and the
+// default size over sources delivering 1, 7 or all bytes per call; the profile embedded in a
+// stream at offsets that put the buffer refill inside each part of the header; the bare
+// instrumented source (Read + ReadByte, unbuffered).
+const nPresent = 10
+
+func present(prof []byte, how int) (r mbinary.Reader, name string) {
+	sched := func(k int) obs.Sched { return obs.Sched{Name: fmt.Sprint("fixed", k), Sizes: []int{k}, Cyclic: true} }
+	switch how % nPresent {
+	case 0:
+		return bytes.NewReader(prof), "bytes.Reader"
+	case 1:
+		return bufio.NewReaderSize(obs.NewSource(prof, -1, nil, sched(1)), 16), "bufio16/fixed1"
+	case 2:
+		return bufio.NewReaderSize(obs.NewSource(prof, -1, nil, sched(7)), 16), "bufio16/fixed7"
+	case 3:
+		return bufio.NewReader(obs.NewSource(prof, -1, nil, sched(7))), "bufio/fixed7"
+	case 4:
+		return obs.NewSource(prof, -1, nil, sched(3)).WithShape("rich0").Reader().(obs.RichSource), "unbuffered/fixed3"
+	case 5:
+		return bufio.NewReaderSize(obs.NewSource(prof, -1, nil, obs.Full), 100), "bufio100/full"
+	default:
+		// embedded: the header starts so that byte (how-dependent) of it is the last one in a 4096-byte buffer fill
+		at := []int{2, 30, 50, 90, 110}[how%5]
+		pre := 4096 - at
+		data := append(make([]byte, pre), prof...)
+		br := bufio.NewReader(obs.NewSource(data, -1, nil, obs.Full))
+		br.Discard(pre)
+		return br, fmt.Sprint("bufio/embedded@-", at)
+	}
+}
+
+var presentCounter uint32
+
 // observeHeader runs the real ICC reader on header + a one-tag table.
 func observeHeader(h []byte) map[string]interface{} {
 	prof := append(append([]byte{}, h...), 0, 0, 0, 1, 'c', 'p', 'r', 't', 0, 0, 0, 144, 0, 0, 0, 4, 1, 2, 3, 4)
 	ev := map[string]interface{}{"kind": "hdr", "hdr": ints(h)}
-	p, err := icc.NewProfileReader(bytes.NewReader(prof)).ReadProfile()
+	rd, how := present(prof, int(atomic.AddUint32(&presentCounter, 1)))
+	ev["reader"] = how
+	p, err := icc.NewProfileReader(rd).ReadProfile()
+	return headerEvent(ev, p, err)
+}
+
+func headerEvent(ev map[string]interface{}, p *icc.Profile, err error) map[string]interface{} {
 	if err != nil {
 		ev["ok"] = false
 		ev["err"] = err.Error()
 		ev["obs"] = map[string]interface{}{}
 		ev["date"] = []int{}
+		ev["unix"] = []int{}
 		return ev
 	}
 	ev["ok"] = true
@@ -56,6 +102,12 @@ func observeHeader(h []byte) map[string]interface{} {
 	}
 	t := H.CreatedAt
 	ev["date"] = []int{t.Year(), int(t.Month()), t.Day(), t.Hour(), t.Minute(), t.Second()}
+	u := t.Unix()
+	days := u / 86400
+	if u%86400 < 0 {
+		days--
+	}
+	ev["unix"] = []int{int(days), int(u - days*86400)}
 	return ev
 }
 
